@@ -7,9 +7,10 @@ done = set()
 for pid, pl in props.PLAN.items():
     if "campaigns" not in pl: continue
     for camp in pl["campaigns"](tier):
+        if "model" not in camp: continue      # random-history campaigns have no pre-generated cases
         m = camp["model"]
         if m in done: continue
         done.add(m)
         model = props.MODELS[m](tier) if callable(props.MODELS[m]) else props.MODELS[m]
         cases, st = vlib.gen_cases(m + "-" + tier, model)
-        print("model %s (%s): %d distinct states, %d transitions -> %s" % (m, tier, st["distinct"], st["transitions"], cases))
+        print("model %s (%s): %d distinct states, %d transitions -> %s" % (m, tier, st.get("distinct"), st.get("transitions"), cases))
